@@ -1015,9 +1015,63 @@ func (e *Eng) CutContradicting(assume ...LitM) func(b *ssa.BasicBlock, succ int)
 					}
 				}
 			}
+			// the cases of one select exclude each other
+			if cur, atoms, ok := e.selectCaseAtoms(b); ok {
+				for j, a := range atoms {
+					if j == cur {
+						continue
+					}
+					for _, m := range assume {
+						if m.F(Lit{Atom: a, Pos: true}) {
+							return true
+						}
+					}
+				}
+			}
 		}
 		return false
 	}
+}
+
+// selectCaseAtoms: if b branches on "select chose case i", the atoms of all cases of that select and i.
+func (e *Eng) selectCaseAtoms(b *ssa.BasicBlock) (cur int, atoms []string, ok bool) {
+	if len(b.Instrs) == 0 {
+		return 0, nil, false
+	}
+	iff, isIf := b.Instrs[len(b.Instrs)-1].(*ssa.If)
+	if !isIf {
+		return 0, nil, false
+	}
+	bo, isB := iff.Cond.(*ssa.BinOp)
+	if !isB || bo.Op != token.EQL {
+		return 0, nil, false
+	}
+	ex, isX := bo.X.(*ssa.Extract)
+	k, isK := bo.Y.(*ssa.Const)
+	if !isX || !isK || ex.Index != 0 || k.Value == nil {
+		return 0, nil, false
+	}
+	sel, isS := ex.Tuple.(*ssa.Select)
+	if !isS {
+		return 0, nil, false
+	}
+	i, exact := constant.Int64Val(k.Value)
+	if !exact || i < 0 || int(i) >= len(sel.States) {
+		return 0, nil, false
+	}
+	c := &rctx{e: e, fn: b.Parent(), seen: map[ssa.Value]bool{}}
+	for _, st := range sel.States {
+		d := "recv:"
+		if st.Dir == types.SendOnly {
+			d = "send:"
+		}
+		bl := ""
+		if !sel.Blocking {
+			bl = "nb-"
+		}
+		atoms = append(atoms, bl+"sel:"+d+c.x(st.Chan))
+	}
+	return int(i), atoms, true
 }
 
 // CountLitEdges counts edges in fn asserting a literal matched by m.
